@@ -12,7 +12,7 @@ SPEC = dict(
                "Zs/Zl/Zp, format characters, the six metacharacters, content runes of 1-4 bytes, every invalid-UTF-8 byte class) and "
                "every limit in -200..300 plus the 16/32/64-bit boundaries is enumerated (exhaustive over that space, reported complete "
                "only when every shard walked its full slice); longer inputs - 3-40 symbols, 998..1002 bytes with byte 1000 inside a "
-               "rune, hundreds of invalid bytes - are explored randomly. Every 61st validation is preceded by a call of one of the package's other "
+               "rune, hundreds of invalid bytes, words separated by runs of 1-990 whitespace / control characters - are explored randomly. Every 61st validation is preceded by a call of one of the package's other "
                "exported functions (file-name, path, input and log sanitising) on the same text, and at the end eight goroutines validate thousands "
                "of strings at once and must get the verdicts and texts of the sequential run. Exploration, not proof, beyond the enumerated space.",
     level_note="Trusted: Go's unicode.IsControl / unicode.IsSpace / utf8 decoding as the meaning of 'control character', 'whitespace' and "
@@ -29,10 +29,10 @@ SPEC = dict(
          "whitespace other than single inner U+0020, metacharacter, invalid UTF-8, length >= 990 bytes}.",
     floors=T({"evaluations": 300000, "distinct_nontrivial": 100000, "exhaustive-1": 120, "exhaustive-2": 14400, "limits": 500,
               "random": 200000, "boundary": 40000, "invalid-heavy": 6000, "accepted": 60000, "rejected-blank": 10000,
-              "rejected-long": 10000, "rejected-meta": 40000, "cli-accepted": 40, "cli-rejected": 40, "calls-to-neighbouring-validation-functions": 4000, "concurrent-validations": 300000},
+              "rejected-long": 10000, "rejected-meta": 40000, "cli-accepted": 40, "cli-rejected": 40, "calls-to-neighbouring-validation-functions": 4000, "concurrent-validations": 300000, "long-whitespace-runs": 12000},
              {"evaluations": 12000000, "distinct_nontrivial": 2000000, "exhaustive-1": 120, "exhaustive-2": 14400, "exhaustive-3": 64000,
               "limits": 500, "random": 10000000, "boundary": 2000000, "invalid-heavy": 300000, "accepted": 3000000,
-              "rejected-blank": 500000, "rejected-long": 750000, "rejected-meta": 2000000, "cli-accepted": 400, "cli-rejected": 400, "calls-to-neighbouring-validation-functions": 150000, "concurrent-validations": 3000000}),
+              "rejected-blank": 500000, "rejected-long": 750000, "rejected-meta": 2000000, "cli-accepted": 400, "cli-rejected": 400, "calls-to-neighbouring-validation-functions": 150000, "concurrent-validations": 3000000, "long-whitespace-runs": 300000}),
     assumptions=[
         "'characters' are counted as Go runes, an invalid UTF-8 byte counting one (so U+FFFD substitution does not make a query 'longer'); "
         "'at most 1000 bytes' is measured on the input as given",
